@@ -80,9 +80,9 @@ fn mix_set(k: usize, pos: usize) -> IpfixSet {
     }
 }
 
-pub fn spaces(tier: &str) -> Vec<Box<dyn Space>> {
+pub fn streams(tier: &str) -> Vec<StreamGen> {
     let thorough = tier == "thorough";
-    let mut v: Vec<Box<dyn Space>> = vec![];
+    let mut v: Vec<StreamGen> = vec![];
 
     // 1. single-field sweep (fixed-length specs): every IE x supported width x value menu x delivery x padding
     {
@@ -103,8 +103,7 @@ pub fn spaces(tier: &str) -> Vec<Box<dyn Space>> {
             let body = body_for(&fields, 2, d[2] as usize, Some((0, 0, val)));
             deliver(IpfixSet::Tpl(vec![IpfixTpl { id: 300, fields }], 0), IpfixSet::Data(300, body), d[1])
         };
-        let mk2 = mk.clone();
-        v.push(space("ipfix-single-field-sweep-fixed", n * 12, move |i| judge_stream(&mk(i)).eval, move |i| desc_calls(&mk2(i))));
+                v.push(stream_gen("ipfix-single-field-sweep-fixed", n * 12, move |i| Some(mk(i))));
     }
     // 1b. variable-length specs: every pair of consecutive record lengths x prefix forms x delivery
     {
@@ -125,8 +124,7 @@ pub fn spaces(tier: &str) -> Vec<Box<dyn Space>> {
             }
             deliver(IpfixSet::Tpl(vec![IpfixTpl { id: 301, fields }], 0), IpfixSet::Data(301, body), d[5])
         };
-        let mk2 = mk.clone();
-        v.push(space("ipfix-variable-length-record-pairs", n * 6 * 6 * 2 * 2 * 3 * 2, move |i| judge_stream(&mk(i)).eval, move |i| desc_calls(&mk2(i))));
+                v.push(stream_gen("ipfix-variable-length-record-pairs", n * 6 * 6 * 2 * 2 * 3 * 2, move |i| Some(mk(i))));
     }
     // 2. multi-field templates over the class representatives
     {
@@ -143,16 +141,7 @@ pub fn spaces(tier: &str) -> Vec<Box<dyn Space>> {
             let body = body_for(&fields, d[1] as usize + 1, d[2] as usize, None);
             Some(deliver(IpfixSet::Tpl(vec![IpfixTpl { id: 256, fields }], 0), IpfixSet::Data(256, body), d[3]))
         };
-        let mk2 = mk.clone();
-        v.push(space(
-            &format!("ipfix-multi-field-lists<={}", maxlen),
-            nl * 36,
-            move |i| match mk(i) {
-                Some(c) => judge_stream(&c).eval,
-                None => Eval { key: 0, transitions: 0, issues: vec![], tags: vec!["skipped-invalid-template"] },
-            },
-            move |i| mk2(i).map(|c| desc_calls(&c)).unwrap_or(json!("skipped")),
-        ));
+                v.push(stream_gen(&format!("ipfix-multi-field-lists<={}", maxlen), nl * 36, mk));
         let reps = r2;
         let nl2 = list_count(reps.len(), 2);
         let mk = move |i: u64| -> Option<Vec<Vec<u8>>> {
@@ -167,16 +156,7 @@ pub fn spaces(tier: &str) -> Vec<Box<dyn Space>> {
             let body = body_for(&fields, 3, 1, Some((d[3] as usize + 1, k, &val)));
             Some(deliver(IpfixSet::Tpl(vec![IpfixTpl { id: 256, fields }], 0), IpfixSet::Data(256, body), 1))
         };
-        let mk2 = mk.clone();
-        v.push(space(
-            "ipfix-multi-field-single-value-deviation",
-            nl2 * 2 * 12 * 2,
-            move |i| match mk(i) {
-                Some(c) => judge_stream(&c).eval,
-                None => Eval::default(),
-            },
-            move |i| mk2(i).map(|c| desc_calls(&c)).unwrap_or(json!("skipped")),
-        ));
+                v.push(stream_gen("ipfix-multi-field-single-value-deviation", nl2 * 2 * 12 * 2, mk));
     }
     // 3. options templates: scope count 1..=2 x field lists of length 1..=3 over 6 reps x records x padding x delivery
     {
@@ -192,16 +172,7 @@ pub fn spaces(tier: &str) -> Vec<Box<dyn Space>> {
             let body = body_for(&fields, d[2] as usize + 1, d[3] as usize, None);
             Some(deliver(IpfixSet::OptTpl(vec![IpfixOptTpl { id: 400, scope_count: sc, fields }], 0), IpfixSet::Data(400, body), d[4]))
         };
-        let mk2 = mk.clone();
-        v.push(space(
-            "ipfix-options-templates",
-            nl * 2 * 3 * 4 * 3,
-            move |i| match mk(i) {
-                Some(c) => judge_stream(&c).eval,
-                None => Eval::default(),
-            },
-            move |i| mk2(i).map(|c| desc_calls(&c)).unwrap_or(json!("skipped")),
-        ));
+                v.push(stream_gen("ipfix-options-templates", nl * 2 * 3 * 4 * 3, mk));
     }
     // 4. 1..=3 template records per template set / options-template set, then data for each id
     {
@@ -221,8 +192,7 @@ pub fn spaces(tier: &str) -> Vec<Box<dyn Space>> {
                 vec![ipfix_message(&IpfixMsg::new(vec![set])), ipfix_message(&IpfixMsg::new(data))]
             }
         };
-        let mk2 = mk.clone();
-        v.push(space("ipfix-template-records-per-set", 3 * 2 * 3 * 2 * 4, move |i| judge_stream(&mk(i)).eval, move |i| desc_calls(&mk2(i))));
+                v.push(stream_gen("ipfix-template-records-per-set", 3 * 2 * 3 * 2 * 4, move |i| Some(mk(i))));
     }
     // 5. set mixes: all sequences of <= 3 (thorough 4) sets over an 8-set menu x prior context
     {
@@ -239,8 +209,7 @@ pub fn spaces(tier: &str) -> Vec<Box<dyn Space>> {
             calls.push(ipfix_message(&IpfixMsg::new(sets)));
             calls
         };
-        let mk2 = mk.clone();
-        v.push(space(&format!("ipfix-set-mixes<={}", maxlen), nl * 2, move |i| judge_stream(&mk(i)).eval, move |i| desc_calls(&mk2(i))));
+                v.push(stream_gen(&format!("ipfix-set-mixes<={}", maxlen), nl * 2, move |i| Some(mk(i))));
     }
     // 6. header values
     {
@@ -256,8 +225,7 @@ pub fn spaces(tier: &str) -> Vec<Box<dyn Space>> {
             }
             vec![ipfix_message(&m)]
         };
-        let mk2 = mk.clone();
-        v.push(space("ipfix-header-values", 15, move |i| judge_stream(&mk(i)).eval, move |i| desc_calls(&mk2(i))));
+                v.push(stream_gen("ipfix-header-values", 15, move |i| Some(mk(i))));
     }
     v
 }
@@ -275,5 +243,5 @@ pub fn run(tier: &str) -> i32 {
         required_tags: vec![],
         extra: Default::default(),
     };
-    run_report(rep, spaces(tier))
+    run_report(rep, streams(tier).into_iter().map(|g| g.into_space(|c| judge_stream(c).eval)).collect())
 }
